@@ -65,7 +65,16 @@ def ocol(vals):
     return a
 
 
-def new_adaptive(n_sum=1):
+def new_adaptive(n_sum=1, vector=False):
+    if vector:
+        # ONE vector-valued summary (an n x k array) instead of k scalar ones
+        m = elfi.ElfiModel()
+        t = elfi.Prior('uniform', 0, 1, model=m, name='t')
+        Y = elfi.Simulator(lambda t, batch_size=1, random_state=None: np.zeros((batch_size, n_sum)), t, model=m, name='Y',
+                           observed=np.zeros((1, n_sum)))
+        S = elfi.Summary(lambda y: y, Y, model=m, name='S0')
+        d = elfi.AdaptiveDistance(S, model=m, name='d')
+        return m, d
     m = elfi.ElfiModel()
     t = elfi.Prior('uniform', 0, 1, model=m, name='t')
     Y = elfi.Simulator(lambda t, batch_size=1, random_state=None: np.zeros((batch_size, n_sum)), t, model=m, name='Y',
@@ -291,22 +300,37 @@ def check_nested(ctx):
         if ctx.enough():
             break
         k = rng.randint(1, 3)
-        m, d = new_adaptive(k)
+        vector = it % 4 == 3            # one vector-valued summary: the n x k array reaches the distance as it is
+        m, d = new_adaptive(k, vector)
         obs = np.zeros(k)
         rounds = rng.randint(1, 3)
         prev_cols, prev_q = [], None
         q = np.array([[rng.uniform(-3, 3) for _ in range(k)] for _ in range(rng.choice([1, 1, 2, 4]))])
-        case = dict(kind='nested', n_summaries=k, rounds=rounds, query=q.tolist(), data=[])
+        case = dict(kind='nested', n_summaries=k, rounds=rounds, query=q.tolist(), data=[], vector_summary=vector)
         ok = True
         for r in range(rounds):
             data = np.array([[rng.uniform(-5, 5) * (1 + 3 * j) for j in range(k)] for _ in range(rng.randint(2, 12))])
             case['data'].append(data.tolist())
             cuts = sorted(rng.sample(range(1, len(data)), rng.randint(0, min(len(data) - 1, 3))))
             for a, b in zip([0] + cuts, cuts + [len(data)]):
-                d.add_data(*[data[a:b, j] for j in range(k)])
+                if vector:
+                    d.add_data(data[a:b].copy())
+                else:
+                    d.add_data(*[data[a:b, j] for j in range(k)])
             scale = data.std(axis=0)
             d.update_distance()
-            out = np.asarray(d.generate(batch_size=len(q), with_values={'S%d' % j: q[:, j] for j in range(k)}))
+            if vector:
+                given = q.copy()
+                res = m.generate(batch_size=len(q), outputs=['d', 'S0'], with_values={'S0': given})
+                out = np.asarray(res['d'])
+                # evaluating a distance must not alter the summaries it is computed from (they are outputs of the same batch)
+                if not np.array_equal(given, q) or not np.array_equal(np.asarray(res['S0']), q):
+                    ctx.fail_input(case, 'evaluating the adaptive distance changed the summary values of the batch: %s -> %s'
+                                   % (q.tolist(), np.asarray(res['S0']).tolist()), q.tolist(), np.asarray(res['S0']).tolist())
+                    ok = False
+                    break
+            else:
+                out = np.asarray(d.generate(batch_size=len(q), with_values={'S%d' % j: q[:, j] for j in range(k)}))
             exp_new = np.sqrt((((q - obs) / scale) ** 2).sum(axis=1))
             if out.shape != (len(q), r + 2):
                 ctx.fail_input(case, 'nested distance has shape %s after %d update(s) for %d row(s), expected (%d, %d)'
@@ -335,6 +359,7 @@ def check_nested(ctx):
         ctx.case(case, True)
         ctx.count('nested.rounds', rounds)
         ctx.count('nested.batch', len(q))
+        ctx.count('nested.vector_summary', vector)
 
 
 # ------------------------------------------------------------------------------------------
